@@ -29,3 +29,13 @@ JOBS += [
  _j("scpiLex_SpecificCharacter", "single character token", props=_PROPS + ["C19"]),
  _j("scpiLex_NewLine", "CR, LF or CR LF"),
 ]
+
+# thorough tier: the same jobs with the character-class CONTENT clauses (witness over the whole consumed range) enabled
+_CONTENT = []
+for _jb in JOBS:
+    if _jb["name"] in ("lexer.scpiLex_IsEos", "lexer.scpiLex_Comma", "lexer.scpiLex_Semicolon", "lexer.scpiLex_Colon", "lexer.scpiLex_SpecificCharacter", "lexer.scpiLex_NewLine"):
+        continue
+    _c = dict(_jb); _c["name"] = _jb["name"] + ".content"; _c["defines"] = ["LEX_BYTES", "LEX_CONTENT"]; _c["tier"] = "thorough"; _c["timeout"] = 2400
+    _c["props"] = ["C13"]; _c["what"] = _jb["what"] + " + every consumed byte belongs to the token's character class (witness index)"
+    _CONTENT.append(_c)
+JOBS += _CONTENT
